@@ -161,7 +161,12 @@ func (w *vrWorld) c13ChainV2() {
 		w.reviseTip2(tip, true)
 		w.reviseTip2(tip, true)
 		w.reviseTip2(other, true)
-		next, ok = w.renew2(tip, g%2 == 0, vrRenew2OK, -1)
+		if g%2 == 1 { // renewed under the contract's lock with a second caller queued for it
+			cur := tip
+			w.lock2Waiting(cur, func() { next, ok = w.renew2(cur, false, vrRenew2OK, -1) })
+		} else {
+			next, ok = w.renew2(tip, true, vrRenew2OK, -1)
+		}
 		if !ok {
 			w.hit("live-contract-refuses-renewal", fmt.Sprintf("contract %d", w.cN(tip)))
 			return
@@ -287,7 +292,12 @@ func (w *vrWorld) c13Generated() {
 				if rng.Intn(5) == 0 {
 					bad = vrRenew2Bad(1 + rng.Intn(7))
 				}
-				next, ok = w.renew2(l.tip, rng.Intn(2) == 0, bad, fault)
+				if refresh := rng.Intn(2) == 0; rng.Intn(4) == 0 { // with a second caller queued for the contract's lock
+					cur := l.tip
+					w.lock2Waiting(cur, func() { next, ok = w.renew2(cur, refresh, bad, fault) })
+				} else {
+					next, ok = w.renew2(l.tip, refresh, bad, fault)
+				}
 			} else {
 				if !w.lock1(l.tip) {
 					w.hit("live-contract-refuses-lock", fmt.Sprintf("contract %d", w.cN(l.tip)))
